@@ -10,6 +10,7 @@ import (
 	"net"
 	"strings"
 	"sync"
+	"sync/atomic"
 	"time"
 
 	"github.com/smallnest/rpcx/client"
@@ -259,6 +260,9 @@ func buildResp(seq uint64, flags string, tag int) []byte {
 	m.SetHeartbeat(strings.ContainsRune(flags, 'h'))
 	m.SetOneway(strings.ContainsRune(flags, 'o'))
 	m.SetSerializeType(rigSerializeType)
+	if strings.ContainsRune(flags, 'k') {
+		m.SetSerializeType(protocol.SerializeType(14)) // a codec the client does not know
+	}
 	m.SetSeq(seq)
 	m.ServicePath, m.ServiceMethod = "Svc", "M"
 	if strings.ContainsRune(flags, 'E') {
@@ -316,11 +320,50 @@ func runMuxSchedule(kinds string, evs []string) (string, error) {
 	opt := client.DefaultOption
 	opt.SerializeType = rigSerializeType
 	opt.Heartbeat = false
+	// schedules with an `N` event run with a BLOCKING server-message channel whose consumer the
+	// harness can pause: the reader then parks while handing over its "connection lost" notice
+	blocking := false
+	for _, e := range evs {
+		if e[0] == 'N' {
+			blocking = true
+		}
+	}
+	opt.BidirectionalBlock = blocking
 	cl := client.NewClient(opt)
 	pc := client.NewPluginContainer()
 	pc.Add(rigClosePlugin{r})
 	cl.Plugins = pc
 	pushCh := make(chan *protocol.Message, 64)
+	var paused, pausedAck int32
+	var collected []*protocol.Message
+	var collMu sync.Mutex
+	stopConsumer := make(chan struct{})
+	defer close(stopConsumer)
+	if blocking {
+		pushCh = make(chan *protocol.Message)
+		go func() {
+			for {
+				select {
+				case <-stopConsumer:
+					return
+				default:
+				}
+				if atomic.LoadInt32(&paused) != 0 {
+					atomic.StoreInt32(&pausedAck, 1)
+					time.Sleep(50 * time.Microsecond)
+					continue
+				}
+				atomic.StoreInt32(&pausedAck, 0)
+				select {
+				case m := <-pushCh:
+					collMu.Lock()
+					collected = append(collected, m)
+					collMu.Unlock()
+				case <-time.After(100 * time.Microsecond):
+				}
+			}
+		}()
+	}
 	cl.RegisterServerMessageChan(pushCh)
 	if err := cl.Connect("verifrig", "x"); err != nil {
 		return "", err
@@ -393,6 +436,43 @@ func runMuxSchedule(kinds string, evs []string) (string, error) {
 				time.Sleep(50 * time.Microsecond)
 			}
 			terminated = true
+		case strings.HasPrefix(ev, "p:"):
+			// the connection breaks in the MIDDLE of a response frame: a prefix of the frame for
+			// <seq> arrives (cut inside the header / the length field / the sections), then EOF.
+			// For the multiplexer this is a reader termination: the partial response is nobody's.
+			if terminated {
+				continue
+			}
+			var seq uint64
+			var cls int
+			parts := strings.Split(ev, ":")
+			fmt.Sscan(parts[1], &seq)
+			fmt.Sscan(parts[2], &cls)
+			full := buildResp(seq, "-", 77)
+			k := []int{1, 7, 14, 16 + (len(full)-16)/2, len(full) - 1}[cls%5]
+			select {
+			case r.feed <- full[:k]:
+			case <-time.After(stepWait):
+				return "", errors.New("reader not reading at partial frame")
+			}
+			select {
+			case <-r.readReq:
+			case <-time.After(stepWait):
+				return "", errors.New("reader did not ask for the rest of the frame")
+			}
+			select {
+			case r.feedErr <- io.ErrUnexpectedEOF:
+			case <-time.After(stepWait):
+				return "", errors.New("reader not reading after partial frame")
+			}
+			deadline := time.Now().Add(stepWait)
+			for !cl.IsShutdown() {
+				if time.Now().After(deadline) {
+					return "", errors.New("reader did not terminate after a partial frame")
+				}
+				time.Sleep(50 * time.Microsecond)
+			}
+			terminated = true
 		case ev == "C":
 			cl.Close()
 			// Close closes the conn: the reader's Read fails and it terminates
@@ -432,6 +512,65 @@ func runMuxSchedule(kinds string, evs []string) (string, error) {
 						terminated = true // the reader tore the connection down by itself
 						break waitRead
 					}
+				}
+			}
+		case ev[0] == 'N':
+			// the peer closes; the reader, on its way out, parks handing its "connection lost"
+			// notice to a server-message consumer that is not listening; meanwhile a fresh call
+			// enters send(), registers and is written (the connection is not torn down yet); then the
+			// consumer takes the notice and the teardown runs.  Model: `r<i> w<i> T`.
+			var ci int
+			fmt.Sscan(ev[1:], &ci)
+			mc := calls[ci]
+			id := idBase + ci
+			if terminated || mc.phase != 0 || !blocking {
+				return "", errors.New("notice-hold event not enabled here")
+			}
+			atomic.StoreInt32(&paused, 1)
+			for w := 0; atomic.LoadInt32(&pausedAck) == 0; w++ { // the consumer has left its receive
+				if w > 20000 {
+					return "", errors.New("the server-message consumer did not pause")
+				}
+				time.Sleep(100 * time.Microsecond)
+			}
+			select {
+			case r.feedErr <- io.ErrUnexpectedEOF:
+			case <-time.After(stepWait):
+				return "", errors.New("reader not reading at N")
+			}
+			time.Sleep(3 * time.Millisecond)
+			r.gate(r.sendGate, id).release <- true
+			if err := waitArr(r.gate(r.encGate, id), "encode (during the notice hand-over)"); err != nil {
+				return "", err
+			}
+			mc.seq = nextSeq
+			nextSeq++
+			r.gate(r.encGate, id).release <- true
+			if err := waitArr(r.gate(r.wrGate, id), "write (during the notice hand-over)"); err != nil {
+				return "", err
+			}
+			r.gate(r.wrGate, id).release <- true
+			mc.phase = 3
+			time.Sleep(300 * time.Microsecond)
+			atomic.StoreInt32(&paused, 0)
+			deadline := time.Now().Add(stepWait)
+			for !cl.IsShutdown() {
+				if time.Now().After(deadline) {
+					return "", errors.New("reader did not terminate after the notice was taken")
+				}
+				time.Sleep(50 * time.Microsecond)
+			}
+			terminated = true
+			for w := 0; w < 200; w++ {
+				if mc.kind == 'B' {
+					awaitRet(mc)
+					if mc.ret != nil {
+						break
+					}
+				} else if len(mc.done) > 0 {
+					break
+				} else {
+					time.Sleep(100 * time.Microsecond)
 				}
 			}
 		case ev[0] == 'H' || ev[0] == 'K':
@@ -648,7 +787,19 @@ func runMuxSchedule(kinds string, evs []string) (string, error) {
 		}
 	}
 	var pushes []string
-	for len(pushCh) > 0 {
+	if blocking {
+		time.Sleep(500 * time.Microsecond)
+		collMu.Lock()
+		for _, m := range collected {
+			if t, ok := m.Metadata["push"]; ok {
+				pushes = append(pushes, t)
+			} else if m.MessageStatusType() != protocol.Error {
+				pushes = append(pushes, "?")
+			}
+		}
+		collMu.Unlock()
+	}
+	for !blocking && len(pushCh) > 0 {
 		m := <-pushCh
 		if t, ok := m.Metadata["push"]; ok {
 			pushes = append(pushes, t)
@@ -750,7 +901,9 @@ func genMuxSchedule(r *rand.Rand, focus string) (string, []string) {
 			if len(written) > 0 && r.Intn(4) != 0 {
 				seq = seqOf[written[r.Intn(len(written))]]
 			}
-			switch r.Intn(9) {
+			switch r.Intn(10) {
+			case 9:
+				flags = "k" // response in a serialize type unknown to the client
 			case 0:
 				flags = "E"
 			case 1:
@@ -785,13 +938,18 @@ func genMuxSchedule(r *rand.Rand, focus string) (string, []string) {
 				}
 				if len(fresh) > 0 && r.Intn(2) == 0 {
 					c := fresh[r.Intn(len(fresh))]
-					if closed || r.Intn(3) != 0 {
+					if !closed && r.Intn(4) == 0 {
+						evs = append(evs, fmt.Sprintf("N%d", c))
+					} else if closed || r.Intn(3) != 0 {
 						evs = append(evs, fmt.Sprintf("H%d", c))
 					} else {
 						evs = append(evs, fmt.Sprintf("K%d", c))
 						closed = true
 					}
 					phase[c] = 4
+				} else if r.Intn(2) == 0 {
+					// … or in the middle of a response frame, at every class of byte offset
+					evs = append(evs, fmt.Sprintf("p:%d:%d", r.Intn(nextSeq+1), r.Intn(5)))
 				} else {
 					evs = append(evs, "T")
 				}
